@@ -2,14 +2,16 @@
 """store_mutants.py <PROP> '<json: {"1": [...detected_by...], "2": [...], "3": [...]}>'  : copy /tmp/mut/<PROP>-out/m*/ into /verif/seeded"""
 import json, sys, os, shutil
 P = sys.argv[1]; det = json.loads(sys.argv[2])
+SRC = sys.argv[3] if len(sys.argv) > 3 else P          # e.g. C15r2 for a second round
+OFF = int(sys.argv[4]) if len(sys.argv) > 4 else 0     # second round: 3 (stored as m4..m6)
 for k in ("1", "2", "3"):
-    src = "/tmp/mut/%s-out/m%s" % (P, k); dst = "/verif/seeded/%s-m%s" % (P, k)
+    src = "/tmp/mut/%s-out/m%s" % (SRC, k); dst = "/verif/seeded/%s-m%d" % (P, int(k) + OFF)
     os.makedirs(dst, exist_ok=True)
     for f in ("patch.diff", "demo.rs", "README.md"):
         shutil.copy(os.path.join(src, f), os.path.join(dst, f))
     c = json.load(open(os.path.join(src, "confirm.json")))
     title = open(os.path.join(src, "README.md")).read().splitlines()[0].lstrip("# ").strip()
-    meta = {"property": P, "id": "%s-m%s" % (P, k), "summary": title, "needs": "see README.md",
+    meta = {"property": P, "id": "%s-m%d" % (P, int(k) + OFF), "summary": title, "needs": "see README.md",
             "confirmed": {"how": "bin/confirm_mutant.sh in a scratch worktree under /tmp (removed afterwards): demo copied to tests/, run without and with the patch; then the full suite with the patch",
                           "demo_without_patch_rc": c["demo_without_patch_rc"], "demo_with_patch_rc": c["demo_with_patch_rc"], "suite_with_patch_rc": c["suite_with_patch_rc"], "suite": c["suite"].strip()},
             "detected_by": det.get(k, [])}
